@@ -85,7 +85,8 @@ def run(sc):
         asyncio.open_connection = open_connection
         for _ in range(sc['n_msgs']):
             t = round(rng.uniform(0.1, sc['horizon']), 3)
-            text = rng.choice(('hello', 'x' * 600, 'ж' * 200, 'y' * 9000))
+            # (40000 and 70000 characters with auto_message_payload: PDUs larger than any buffer or slice size a writer may use)
+            text = rng.choice(('hello', 'x' * 600, 'ж' * 200, 'y' * 9000, 'z' * 40000, 'w' * 70000 if rng.random() < 0.3 else 'v' * 33000))
             auto = rng.random() < 0.5
             s.at(t, s.enqueue, SubmitSm(short_message=text, auto_message_payload=auto, log_id='m'))
         seqs = {'n': 9000}
@@ -108,6 +109,14 @@ def run(sc):
                 conn.feed(pdu(5, 0, q, deliver_body(b'\x05\x00\x03\x07\x02\x01ab', esm=0x40)))
             elif kind == 'stray-resp':
                 conn.feed(pdu(0x80000004, 0, q, b'id\x00'))
+            elif kind == 'times':
+                # schedule / validity strings of every kind: well-formed absolute and relative ones, wrong direction
+                # characters, wrong lengths, non-digits - the PDU is a request and gets its one answer whatever they say
+                sched = rng.choice((b'', b'260101120000000+', b'260101120000014-', b'000007000000000R', b'260101120000000Z',
+                                    b'2601011200000000', b'26010112000000+', b'26130112000000 +', b'aaaaaaaaaaaaaaaa', b'R'))
+                valid = rng.choice((b'', b'260101120000048-', b'260101120000000z', b'000000010000000R', b'99999999999999999'))
+                body = b'\x00' * 7 + b'\x00' + b'\x00\x00' + sched + b'\x00' + valid + b'\x00' + b'\x00\x00' + b'\x00\x00' + b'\x02hi'
+                conn.feed(pdu(5, 0, q, body))
             elif kind == 'receipt':
                 # delivery receipts as SMSCs write them: well-formed, without dates, dates with seconds, words for numbers,
                 # fields the library does not know - each is a request and must be answered (response or nack) exactly once
@@ -130,7 +139,7 @@ def run(sc):
                 seqs['n'] += 2
         for _ in range(sc['n_in']):
             s.at(round(rng.uniform(0.1, sc['horizon']), 3) + 0.0001,
-                 inbound, rng.choice(('deliver', 'deliver', 'enq', 'unsupported', 'bad', 'seg', 'stray-resp', 'burst', 'unbind', 'receipt', 'receipt')))
+                 inbound, rng.choice(('deliver', 'deliver', 'enq', 'unsupported', 'bad', 'seg', 'stray-resp', 'burst', 'unbind', 'receipt', 'receipt', 'times', 'times')))
         # back-pressure episodes: the peer stops reading for a while, so drain() really suspends
         for _ in range(sc.get('stalls', 0)):
             t0 = round(rng.uniform(0.5, sc['horizon']), 3) + 0.0004
